@@ -302,6 +302,7 @@ pub enum MReadGuard<'g> {
 	PoisNested(PoisonResult<PoisonRef<'g, Box<[MReadGuard<'g>]>>>),
 }
 
+#[derive(Debug)]
 pub enum MData<'x> {
 	One(&'x mut Cell3),
 	Pois(PoisonResult<&'x mut Cell3>),
@@ -310,6 +311,7 @@ pub enum MData<'x> {
 	PoisNested(PoisonResult<Box<[MData<'x>]>>),
 }
 
+#[derive(Debug)]
 pub enum MDataRef<'x> {
 	One(&'x Cell3),
 	Pois(PoisonResult<&'x Cell3>),
